@@ -350,17 +350,28 @@ class Analyzer:
         return self._init_cache[q]
 
     # ---- entry -------------------------------------------------------------------------------
-    def analyse(self, q, mname):
+    def analyse(self, q, mname, delegate=False):
+        """delegate=True: an UNdecorated override of a @builder method that obtains the copy from a @builder call on the
+        receiver (`query = super().m(...); query.x = ...; return query`).  The table row is a copying row whose body object
+        is that copy: the inlined @builder callee's writes and the writes through the returned copy are `self` effects; a
+        write on the receiver itself (outside the inlined callee) is reported against the never-safe target via:<receiver>;
+        every return must be the copy."""
         found = self.ix.find_method(q, mname)
         if found is None:
             raise ExtractError("method %s.%s not found" % (q, mname))
         defc, fn = found
         self.effects, self.returns, self.falls_through = [], [], False
         self.entry_cls = q
-        self.entry_copies = self.ix.is_builder(fn)
+        self.entry_copies = self.ix.is_builder(fn) or delegate
+        self.delegate, self.in_builder, self.builder_calls = delegate, 0, 0
         env = self._bind_params(fn, None, None, entry=True)
         env[fn.args.args[0].arg] = [SELF]
         self._run_fn(q, defc, fn, env, depth=0, stack=[(defc, mname)], top=True)
+        if delegate:
+            vals = [v for vs, _ in self.returns for v in vs]
+            if not self.builder_calls or not vals or any(v != SELFCOPY for v in vals):
+                raise ExtractError("%s.%s: undecorated override of a @builder method does not return the copy obtained "
+                                   "from a @builder call on the receiver" % (q, mname))
         return _uniq(self.effects), self._ret_kind(q, mname, fn)
 
     def _ret_kind(self, q, mname, fn):
@@ -456,7 +467,9 @@ class Analyzer:
 
     def _write(self, base, attr, node, mod):
         """`base.attr = ...` (rebinding an attribute of object `base`)"""
-        if base == SELF or base == SELFCOPY:
+        if base == SELF and getattr(self, "delegate", False) and not self.in_builder:
+            self._emit("via:<receiver>", "rebind", attr, node, mod)
+        elif base == SELF or base == SELFCOPY:
             self._emit("self", "rebind", attr, node, mod)
         elif isinstance(base, Fresh) or base == OTHER or base == ("none",):
             return
@@ -481,6 +494,8 @@ class Analyzer:
             raise ExtractError("%s: receiver itself mutated as a container" % _loc(mod, node))
         if cont[0] == "attr":
             b = cont[1]
+            if b == SELF and getattr(self, "delegate", False) and not self.in_builder:
+                return self._emit("via:<receiver>", "inplace", cont[2], node, mod)
             if b in (SELF, SELFCOPY):
                 return self._emit("self", "inplace", cont[2], node, mod)
             if isinstance(b, Fresh) or b == OTHER:
@@ -545,7 +560,7 @@ class _Frame:
                 elif b in (OTHER, ("none",)):
                     out.append(OTHER)
                 elif b == SELFCOPY:
-                    out.append(("attr", SELF, e.attr))
+                    out.append(("attr", SELFCOPY if getattr(self.an, "delegate", False) else SELF, e.attr))
                 else:
                     out.append(("attr", b, e.attr))
             return _uniq(out)
@@ -656,6 +671,17 @@ class _Frame:
             m = f.attr
             if m in FORBIDDEN_NAMES:
                 raise ExtractError("%s: call of %s" % (_loc(self.mod, e), m))
+            # Cls.m(self, ...): explicit call of a (parent) class's method on the receiver
+            ucls = ix.resolve(self.mod, f.value) if isinstance(f.value, (ast.Name, ast.Attribute)) else None
+            if ucls is not None and e.args and not isinstance(e.args[0], ast.Starred) and ix.find_method(ucls, m) is not None:
+                first = self.ev(e.args[0])
+                this = self.env.get(self.selfname, [])
+                if first and all(v in (SELF, SELFCOPY) or (v != OTHER and v in this) for v in first) and ucls in ix.classes[self.ctx].mro:
+                    e2 = ast.Call(func=f, args=e.args[1:], keywords=e.keywords)
+                    ast.copy_location(e2, e)
+                    start = ix.classes[self.ctx].mro
+                    prev = start[start.index(ucls) - 1] if start.index(ucls) > 0 else None
+                    return self.method_call(first, self.ctx, m, e2, after=prev)
             # super().m(...)
             if _is_super_call(f.value):
                 this = self.env.get(self.selfname, [OTHER])
@@ -733,7 +759,14 @@ class _Frame:
             env[fn.args.args[0].arg] = [Fresh(cls, {})]
             self.an._run_fn(cls, defc, fn, env, self.depth + 1, self.stack + [(defc, m)])
             return [OTHER]
-        rets = self.an._run_fn(cls, defc, fn, env, self.depth + 1, self.stack + [(defc, m)])
+        if isb:
+            self.an.in_builder += 1
+            self.an.builder_calls += 1
+        try:
+            rets = self.an._run_fn(cls, defc, fn, env, self.depth + 1, self.stack + [(defc, m)])
+        finally:
+            if isb:
+                self.an.in_builder -= 1
         if isb:
             # a @builder call works on a further copy; for the receiver chain that copy is as fresh as the first one
             return [SELFCOPY if v in (SELF, SELFCOPY) else OTHER for v in this_vals]
@@ -955,14 +988,18 @@ def build_table(repo, strict=True):
                 entries.append((mname, True))
             elif mname in EXTRA_ENTRY.get(q, []):
                 entries.append((mname, False))
+            elif not mname.startswith("_") and any(mname in ix.classes[c2].methods and ix.is_builder(ix.classes[c2].methods[mname])
+                                                   for c2 in ci.mro[ci.mro.index(c) + 1:]):
+                entries.append((mname, "delegate"))     # undecorated override of a chaining call
         if not entries:
             continue
         attrs, _, _ = an.inits(q)
         rec = {"cls": q, "name": ci.name, "attrs": list(attrs.items()), "recopy": guarded(lambda: copy_attrs(ix, q), None),
                "methods": []}
         for mname, copies in entries:
-            effects, ret = guarded(lambda: an.analyse(q, mname), ([], ("self",)))
-            rec["methods"].append({"name": mname, "copies": copies, "effects": effects, "ret": ret})
+            effects, ret = guarded(lambda: an.analyse(q, mname, delegate=(copies == "delegate")), ([], ("self",)))
+            rec["methods"].append({"name": mname, "copies": bool(copies), "effects": effects, "ret": ret,
+                                   "delegate": copies == "delegate"})
         table.append(rec)
     # composite chaining calls  recv.m(...).w(...)  where m returns a wrapper (Joiner) whose entry point w finishes the
     # call on the copy held by the wrapper: one row "m>w" whose effects are m's followed by w's, re-targeted
